@@ -43,9 +43,13 @@ def snapshot(root):
     snap = {}
     for d, dirs, files in os.walk(root):
         for n in dirs:
-            snap[os.path.relpath(os.path.join(d, n), root)] = ("dir",)
+            p = os.path.join(d, n)
+            snap[os.path.relpath(p, root)] = ("link", os.readlink(p)) if os.path.islink(p) else ("dir",)
         for n in files:
             p = os.path.join(d, n)
+            if os.path.islink(p):
+                snap[os.path.relpath(p, root)] = ("link", os.readlink(p))
+                continue
             snap[os.path.relpath(p, root)] = ("file", os.path.getsize(p), hashlib.sha256(open(p, "rb").read()).hexdigest())
     return snap
 
@@ -78,6 +82,11 @@ def main():
         if j % 7 == 5:
             # the output path ends in a separator: the name is the last component all the same
             form = "trailing"
+        if j % 11 == 7:
+            # the output name already exists as a symbolic link to a file somewhere else (the requested output file is then that file;
+            # header, implementation files and datasegments belong into the directory of the output PATH all the same), or the directory
+            # of the output path is itself reached through a symbolic link
+            form = ["linkout", "linkoutabs", "linkdir"][(j // 11) % 3]
         if j % 7 == 3:
             # an output directory whose NAME contains pattern characters: it is a name, taken literally; sibling directories
             # that such a pattern would select hold implementation-file names of their own
@@ -119,7 +128,8 @@ def main():
             outdir = {"rel": root, "dotrel": os.path.join(root, "sub"), "abs": os.path.join(root, "o"),
                       "nested": os.path.join(root, "a", "b"), "inputinside": root, "long": os.path.join(root, LONG),
                       "longabs": os.path.join(root, LONG), "missingdir": root, "meta": os.path.join(root, s["meta"][0]),
-                      "trailing": os.path.join(root, "t")}[s["form"]]
+                      "trailing": os.path.join(root, "t"), "linkout": os.path.join(root, "lo"), "linkoutabs": os.path.join(root, "lo"),
+                      "linkdir": os.path.join(root, "realdir")}[s["form"]]
             os.makedirs(outdir, exist_ok=True)
             if s["form"] == "meta":
                 for sib in s["meta"][1]:
@@ -127,6 +137,13 @@ def main():
                     for n in ("s0000000000.c", "d0000000001.c", "s0000000002.c"):
                         open(os.path.join(root, sib, n), "w").write("bystander in a directory the name would match as a pattern\n")
             os.makedirs(os.path.join(root, "elsewhere"), exist_ok=True)
+            if s["form"] in ("linkout", "linkoutabs"):
+                open(os.path.join(root, "elsewhere", "realout.c"), "w").write("the file the output name points to\n")
+                if os.path.lexists(os.path.join(outdir, o["out"])):
+                    os.remove(os.path.join(outdir, o["out"]))
+                os.symlink("../elsewhere/realout.c", os.path.join(outdir, o["out"]))
+            if s["form"] == "linkdir":
+                os.symlink("realdir", os.path.join(root, "ld"))
             indir = outdir if s["form"] == "inputinside" else os.path.join(root, "elsewhere")
             # bystanders: the same near-miss names in a sibling directory and in a subdirectory of the output directory
             for n in s["pre"]:
@@ -177,10 +194,22 @@ def main():
             outarg = {"rel": o["out"], "dotrel": "./sub/" + o["out"], "abs": os.path.join(outdir, o["out"]),
                       "nested": "a/b/" + o["out"], "inputinside": o["out"], "long": LONG + "/" + o["out"],
                       "longabs": os.path.join(outdir, o["out"]), "meta": s["meta"][0] + "/" + o["out"],
+                      "linkout": "lo/" + o["out"], "linkoutabs": os.path.join(outdir, o["out"]), "linkdir": "ld/" + o["out"],
                       "trailing": (os.path.join(outdir, o["out"]) if j % 3 == 0 else "t/" + o["out"]) + ("/" if j % 2 else "//"),
                       # the directory of the output path does not exist: nothing may be written or deleted anywhere (the pre-existing
                       # names lie in the invocation directory, where a translator that carried on would find them)
                       "missingdir": rng.choice(["nosuchdir/", "input.wasm/", os.path.join(root, "absent", "deeper") + "/"]) + o["out"]}[s["form"]]
+            # bystanders where the relative output path would lead if it were resolved once more from the output directory (or from the
+            # sibling): files of the run's own names there are none of its business
+            relarg = outarg.rstrip("/")
+            if not os.path.isabs(relarg) and os.path.dirname(relarg) not in ("", ".") and s["form"] != "missingdir" and len(relarg) < 200:
+                hn_ = o["out"][:o["out"].rindex(".")] + ".h" if "." in o["out"] else o["out"] + ".h"
+                for base in (outdir, os.path.join(root, "elsewhere")):
+                    md = os.path.normpath(os.path.join(base, os.path.dirname(relarg)))
+                    os.makedirs(md, exist_ok=True)
+                    for n in (o["out"], hn_, "s0000000000.c", "datasegments"):
+                        if not os.path.lexists(os.path.join(md, n)):
+                            open(os.path.join(md, n), "w").write("bystander one relative path further down\n")
             before = snapshot(root)
             rc, so, se = run(args + [inp, outarg], cwd=cwd, timeout=120)
             after = snapshot(root)
@@ -217,6 +246,15 @@ def main():
             written = set(bytes(n).decode() for n in p["written"])
             got = set(k[len(pref):] for k in after if k.startswith(pref) and "/" not in k[len(pref):] and after[k][0] == "file")
             got -= {"input.wasm", "ref.wasm"} if s["form"] == "inputinside" else set()
+            linked = s["form"] in ("linkout", "linkoutabs")
+            if linked:
+                # the output name is still the link; the file it points to took the output
+                if after.get(pref + o["out"]) == ("link", "../elsewhere/realout.c"):
+                    got.add(o["out"])
+                else:
+                    devs.append(("link-replaced", "%s is no longer the symbolic link it was: %s" % (o["out"], after.get(pref + o["out"]))))
+                if after.get("elsewhere/realout.c") == before.get("elsewhere/realout.c"):
+                    devs.append(("link-target-not-written", "the file the output name points to did not receive the output"))
             if got != exp_post:
                 devs.append(("names", "unexpected %s, missing %s" % (sorted(got - exp_post)[:5], sorted(exp_post - got)[:5])))
             for k, val in before.items():
@@ -224,7 +262,7 @@ def main():
                 in_outdir = name is not None and "/" not in name
                 if in_outdir and (name in written or (name not in exp_post)):
                     continue            # overwritten or (predicted) deleted
-                if after.get(k) != val:
+                if after.get(k) != val and not (linked and k == "elsewhere/realout.c"):
                     devs.append(("touched", "%s changed or vanished" % k))
             for k in after:
                 if k not in before:
